@@ -6,8 +6,14 @@ package main
 import (
 	"encoding/hex"
 	"fmt"
+	"os"
+	"os/exec"
+	"path/filepath"
+	"regexp"
 	"strconv"
 	"strings"
+	"sync"
+	"time"
 
 	"github.com/thought-machine/please/src/cli"
 	"github.com/thought-machine/please/src/core"
@@ -637,6 +643,115 @@ func fromReal(cs core.TestCases) []acase {
 	return out
 }
 
+// ---------------------------------------------------------------- end to end: the real doFlakeRun through `plz test`
+
+var e2eSeq int
+var e2eCache = map[string][2]string{}
+var e2eMu sync.Mutex
+
+var sumRe = regexp.MustCompile(`(\d+) tests? run(?: in [^;]*)?; (\d+) passed(?:, (\d+) errored)?(?:, (\d+) failed)?(?:, (\d+) skipped)?(?:, (\d+) flakes?)?`)
+
+// e2eFlake builds a repository with one gentest whose k-th execution writes the k-th run as its results file
+// (and exits non-zero when that run has a failing or erroring case), runs `plz test` and reads the summary line
+// and the exit status.
+func e2eFlake(n int, runs [][]acase) (string, string) {
+	plz := os.Getenv("VERIF_PLZ")
+	scratch := os.Getenv("VERIF_SCRATCH")
+	if plz == "" || scratch == "" {
+		panic("VERIF_PLZ / VERIF_SCRATCH not set")
+	}
+	e2eMu.Lock()
+	e2eSeq++
+	root := filepath.Join(scratch, fmt.Sprintf("e2e%d-%d", os.Getpid(), e2eSeq))
+	e2eMu.Unlock()
+	defer os.RemoveAll(root)
+	repo, home, data := filepath.Join(root, "repo"), filepath.Join(root, "home"), filepath.Join(root, "data")
+	for _, d := range []string{repo, home, data} {
+		if err := os.MkdirAll(d, 0o755); err != nil {
+			panic(err)
+		}
+	}
+	codes := []string{}
+	for i, run := range runs {
+		var b strings.Builder
+		b.WriteString(`<testsuite name="s">` + "\n")
+		code := "0"
+		for _, c := range run {
+			x := xcase{cls: c.cls, name: c.name}
+			if len(c.execs) == 1 {
+				x.mask = c.execs[0]
+			}
+			if x.mask == 1 { // exit status and reported failures must agree (test_step.go: "returned nonzero but reported no errors")
+				code = "1"
+			}
+			renderCase(&b, x, 0, " ")
+		}
+		b.WriteString("</testsuite>\n")
+		os.WriteFile(filepath.Join(data, fmt.Sprintf("run%d.xml", i+1)), []byte(b.String()), 0o644)
+		codes = append(codes, code)
+	}
+	os.WriteFile(filepath.Join(data, "codes"), []byte(strings.Join(codes, " ")+"\n"), 0o644)
+	os.WriteFile(filepath.Join(data, "counter"), []byte("1\n"), 0o644)
+	os.WriteFile(filepath.Join(repo, ".plzconfig"), []byte("[cache]\ndir = "+filepath.Join(root, "cache")+"\n"), 0o644)
+	cmd := fmt.Sprintf(`n=$(cat %[1]s/counter); echo $((n+1)) > %[1]s/counter; cp %[1]s/run$n.xml $RESULTS_FILE; exit $(cut -d' ' -f$n %[1]s/codes)`, data)
+	flaky := ""
+	if n > 1 {
+		flaky = fmt.Sprintf(", flaky=%d", n)
+	}
+	os.WriteFile(filepath.Join(repo, "BUILD"), []byte(fmt.Sprintf("gentest(name=\"t\", test_cmd=%q, no_test_output=False%s)\n", cmd, flaky)), 0o644)
+	c := exec.Command(plz, "test", "-p", "-v", "error", "--noupdate", "--num_threads", "2", "//:t")
+	c.Dir = repo
+	c.Env = []string{"HOME=" + home, "XDG_CACHE_HOME=" + home + "/.cache", "XDG_CONFIG_HOME=" + home + "/.config",
+		"PATH=/usr/local/bin:/usr/bin:/bin", "LC_ALL=C", "GOMAXPROCS=2"}
+	done := make(chan struct{})
+	var out []byte
+	var err error
+	go func() { out, err = c.CombinedOutput(); close(done) }()
+	select {
+	case <-done:
+	case <-time.After(120 * time.Second):
+		c.Process.Kill()
+		<-done
+		return "timeout", string(out)
+	}
+	rc := 0
+	if err != nil {
+		rc = 1
+	}
+	for _, l := range strings.Split(string(out), "\n") {
+		if !strings.HasPrefix(l, "//:t ") {
+			continue
+		}
+		m := sumRe.FindStringSubmatch(l)
+		if m == nil {
+			continue
+		}
+		num := func(s string) int { v, _ := strconv.Atoi(s); return v }
+		return fmt.Sprintf("tests=%d pass=%d fail=%d err=%d skip=%d flaky=%d all=%d", num(m[1]), num(m[2]), num(m[4]), num(m[3]), num(m[5]), num(m[6]), 1-rc), string(out)
+	}
+	return fmt.Sprintf("no-summary rc=%d", rc), string(out)
+}
+
+// mergeRuns: per (class, name), the executions of the given runs (the property's view of a flaky target).
+func mergeRuns(runs [][]acase) []acase {
+	type key struct{ c, n string }
+	idx := map[key]int{}
+	var merged []acase
+	for _, run := range runs {
+		for _, c := range run {
+			k := key{c.cls, c.name}
+			i, ok := idx[k]
+			if !ok {
+				i = len(merged)
+				idx[k] = i
+				merged = append(merged, acase{cls: c.cls, name: c.name})
+			}
+			merged[i].execs = append(merged[i].execs, c.execs...)
+		}
+	}
+	return merged
+}
+
 // ---------------------------------------------------------------- ops
 
 func runOp(r *lib.Run, line string) {
@@ -710,6 +825,52 @@ func runOp(r *lib.Run, line string) {
 			}
 		}
 		r.Emit(line, summary(&results), len(runs) >= 2)
+	case f[0] == "e2e" && len(f) == 3:
+		n, err := strconv.Atoi(f[1])
+		if err != nil || n < 1 || n > 9 {
+			r.Emit(line, "bad-op", false)
+			return
+		}
+		var runs [][]acase
+		for _, t := range strings.Split(f[2], "|") {
+			cs, ok := parseA(t)
+			if !ok {
+				r.Emit(line, "bad-op", false)
+				return
+			}
+			for _, c := range cs {
+				if len(c.execs) != 1 || (c.execs[0] != 0 && c.execs[0] != 1 && c.execs[0] != 2 && c.execs[0] != 4) {
+					r.Emit(line, "bad-op", false)
+					return
+				}
+			}
+			runs = append(runs, cs)
+		}
+		var got, out string
+		if c, ok := e2eCache[line]; ok {
+			got, out = c[0], c[1]
+		} else {
+			got, out = e2eFlake(n, runs)
+		}
+		// the property: the runs plz may perform are the first n, up to the first all-green one
+		executed := 0
+		for executed < n && executed < len(runs) {
+			executed++
+			if s, _ := specOf(runs[executed-1]); s.all == 1 {
+				break
+			}
+		}
+		want, _ := specOf(mergeRuns(runs[:executed]))
+		if got != want.String() {
+			w2 := want
+			w2.flaky += cleanReruns(mergeRuns(runs[:executed]))
+			if got == w2.String() {
+				r.OracleFail("flaky-count-includes-clean-reruns", line, "property: "+want.String()+"  plz test: "+got)
+			} else {
+				r.OracleFail("e2e-summary-mismatch", line, "property: "+want.String()+"  plz test: "+got+"\n"+out)
+			}
+		}
+		r.Emit(line, got, len(runs) >= 2)
 	case f[0] == "parse" && len(f) >= 2:
 		var docs []doc
 		for _, t := range f[1:] {
@@ -959,6 +1120,65 @@ func main() {
 		}
 		runOp(r, strings.Join(toks, " "))
 		r.Count("parse-random")
+	}
+	// (5) end to end: the real doFlakeRun, summary line and exit status of `plz test`
+	var e2es []string
+	fixed := []string{
+		"e2e 2 -.41.1;-.42.0|-.41.0;-.42.0", // A flaky, B clean (known finding: B counted as a flake)
+		"e2e 2 -.41.1;-.42.0|-.41.0;-.42.1", // no run is green on its own, every case passed once: target passes
+		"e2e 1 -.41.1;-.42.0|-.41.0;-.42.0", // allowance 1: fails after the first run
+		"e2e 3 -.41.2|-.41.1|-.41.0",        // error, failure, pass
+		"e2e 2 -.41.4;-.42.0",               // skipped counts as success, single run
+		"e2e 2 -.41.1|-.41.1",               // never passes
+	}
+	e2es = append(e2es, fixed...)
+	for i := 0; i < r.N(2, 40); i++ {
+		n := 1 + r.Rng.Intn(3)
+		var p []string
+		for j := 0; j < n; j++ {
+			var run []acase
+			for _, nm := range []string{"A", "B", "C"}[:1+r.Rng.Intn(3)] {
+				if r.Rng.Chance(15) {
+					continue
+				}
+				run = append(run, acase{"", nm, []int{lib.Pick(r.Rng, []int{0, 0, 0, 1, 2, 4})}})
+			}
+			if len(run) == 0 {
+				run = append(run, acase{"", "A", []int{0}})
+			}
+			p = append(p, showA(run))
+			if s, _ := specOf(run); s.all == 1 {
+				break
+			}
+		}
+		e2es = append(e2es, fmt.Sprintf("e2e %d %s", n, strings.Join(p, "|")))
+	}
+	// run the plz invocations four at a time, then emit in order
+	var wg sync.WaitGroup
+	sem := make(chan struct{}, 4)
+	for _, l := range e2es {
+		f := strings.Split(l, " ")
+		n, _ := strconv.Atoi(f[1])
+		var runs [][]acase
+		for _, t := range strings.Split(f[2], "|") {
+			cs, _ := parseA(t)
+			runs = append(runs, cs)
+		}
+		wg.Add(1)
+		go func(l string) {
+			defer wg.Done()
+			sem <- struct{}{}
+			got, out := e2eFlake(n, runs)
+			<-sem
+			e2eMu.Lock()
+			e2eCache[l] = [2]string{got, out}
+			e2eMu.Unlock()
+		}(l)
+	}
+	wg.Wait()
+	for _, l := range e2es {
+		runOp(r, l)
+		r.Count("e2e-plz-test")
 	}
 	for _, l := range []string{"counts", "counts -.61.9", "flake x -", "parse", "parse x:weird:-", "parse g:61.Q", "nonsense", "counts -.61."} {
 		runOp(r, l)
